@@ -2,7 +2,7 @@
 // from the repository's current working tree and writes instrumented copies plus an
 // overlay fragment. Nothing in the repository is modified.
 //
-//	R1 sync       sync.Mutex/RWMutex/Once            -> vsim.Mutex/RWMutex/Once
+//	R1 sync       sync.Mutex/RWMutex/Once/Pool       -> vsim.Mutex/RWMutex/Once/Pool
 //	R2 go         go f(a,b)                          -> { t0,t1 := a,b; vsim.Go(func(){ f(t0,t1) }) }
 //	R3 afterfunc  time.AfterFunc                     -> vsim.AfterFunc
 //	R4 maprange   for k,v := range m                 -> iteration over vsim.SortedKeys(m)
@@ -257,7 +257,7 @@ func (rw *rewriter) run() {
 		switch n := c.Node().(type) {
 		case *ast.SelectorExpr:
 			pk := rw.pkgOf(n.X)
-			if pk == "sync" && rw.rules["R1"] && (n.Sel.Name == "Mutex" || n.Sel.Name == "RWMutex" || n.Sel.Name == "Once") {
+			if pk == "sync" && rw.rules["R1"] && (n.Sel.Name == "Mutex" || n.Sel.Name == "RWMutex" || n.Sel.Name == "Once" || n.Sel.Name == "Pool") {
 				n.X.(*ast.Ident).Name = "vsim"
 				rw.usedVsim = true
 				rw.counts["R1"]++
